@@ -657,8 +657,6 @@ def match_finding(c, what):
     db, q, style, sl = c["in"]
     if what.startswith("legacy-uniquing:") and style == 1:
         return "C41-legacy-query-uniquing"
-    if what.startswith("exists:") and style == 1 and q[0] == 5 and sl != [0, -1]:
-        return "C41-legacy-union-exists-cartesian"
     if what.startswith("contains-orphan:") and _negated_orphan(db, q[1:], False):
         return "C41-not-contains-orphan"
     return None
